@@ -6,6 +6,14 @@
   transliterated and what is abstract) and about the list of unchecked-access
   sites the translator extracts from the sbeppc sources on every run
   (`Sbepp.Extracted.uncheckedSites`).
+
+  State of the tree this file describes: braces in diagnostics, a directory as
+  input, the constant-`char` length deduction, include cycles and offsets past
+  the content are fixed in `/repo` (their former refutations are now positive
+  theorems below).  Still open: recursion over the element nesting depth
+  (`run_no_crash` stays refuted by `witness_depth`) and files left behind when
+  an output file cannot be opened (`rejected_leaves_no_files` stays refuted by
+  `witness_files_after_reject`).
 -/
 import Sbepp.Gen.Pipeline
 import Sbepp.Lemmas.Pipeline
@@ -20,8 +28,9 @@ def keyOf (s : Sbepp.Extracted.Site) : SiteKey := (s.1, s.2.1, s.2.2.1, s.2.2.2.
 
 /-- **unchecked_sites_covered**: the guard table lists exactly the extracted
     sites, in extraction order.  A new `.at(`, `std::get<`, optional
-    dereference, `assert(`, … in the sbeppc sources, a removed one, or a changed
-    source line makes this fail until the table is revisited. -/
+    dereference, `assert(`, run-time format string, … in the sbeppc sources, a
+    removed one, or a changed source line makes this fail until the table is
+    revisited. -/
 theorem unchecked_sites_covered : Sbepp.Extracted.uncheckedSites.map keyOf = guardTable.map (·.1) := by
   decide +kernel
 
@@ -33,16 +42,29 @@ theorem guard_table_nodup : (guardTable.map (·.1)).Nodup := by
 theorem every_site_classified : ∀ s ∈ Sbepp.Extracted.uncheckedSites, (guardOf (keyOf s)).isSome = true := by
   decide +kernel
 
-/-- the six triggers are located at extracted sites that the table marks unguarded -/
+/-- the trigger is located at an extracted site that the table marks unguarded -/
 theorem trigger_sites_unguarded : ∀ t : Trigger, guardOf (siteOf t) = some (.unguarded t) := by
-  intro t; cases t <;> decide
+  intro t; cases t <;> decide +kernel
 
-/-! ## full-strength statements and their refutations on the current tree -/
+/-- the sites of the former defects are extracted sites that are guarded now -/
+theorem fixed_sites_guarded :
+    (guardOf includeSite).map Guard.isUnguarded = some false ∧
+    (guardOf ("schema_parser.hpp", "parse_type_encoding", "optderef", "t.length = t.constant_value->size();")).map
+      Guard.isUnguarded = some false ∧
+    (guardOf ("fs_provider.hpp", "read_file", "resize", "data.resize(static_cast<std::size_t>(file_size));")).map
+      Guard.isUnguarded = some false ∧
+    (guardOf ("location_manager.hpp", "find", "frontback", "const auto& last = ranges.back();")).map
+      Guard.isUnguarded = some false ∧
+    guardTable.all (fun e => e.1.2.2.1 != "rtfmt") = true := by
+  decide +kernel
+
+/-! ## full-strength statement and its refutation on the current tree -/
 
 /-- **run_no_crash** (full strength): whatever the command line, the file
-    system and the abstract parts do, sbeppc does not crash. -/
+    system and the abstract parts do, sbeppc does not crash (fuel as large as
+    the file system, see `run_terminates`). -/
 def run_no_crash : Prop :=
-  ∀ (env : Env) (fuel : Nat) (argv : List String) (fs : FS), Sound env →
+  ∀ (env : Env) (fuel : Nat) (argv : List String) (fs : FS), Sound env → fs.length ≤ fuel →
     (run env fuel argv fs).outcome.isCrash = false
 
 /-- an environment in which nothing abstract interferes: every check passes,
@@ -64,235 +86,156 @@ def goodTypes : Item :=
              hdrType "schemaId", hdrType "version"]
 def goodDoc : Xml := .doc [.schema schemaNode [goodTypes, .message { kind := .message, attrs := [("name", "M"), ("id", "1")] } []]]
 def argvOf (file : String) : List String := ["sbeppc", "--output-dir", "out", file]
+def threeFiles : List String := ["out/s/types/T.hpp", "out/s/schema/schema.hpp", "out/s/s.hpp"]
 
-/-- witness 1 (`main.cpp`: `reporter.error(e.what())`): `sbeppc -{}` — the text
-    "unknown argument: `-{}`" is used as a {fmt} format string -/
-theorem witness_brace_arg :
-    (run envOk 1 ["sbeppc", "-{}"] []).outcome = .crash (siteOf .diagHasBrace) := by decide +kernel
-
-/-- the same through a schema text: a file name with a brace that does not exist -/
-theorem witness_brace_path :
-    (run envOk 1 (argvOf "no{such}.xml") []).outcome = .crash (siteOf .diagHasBrace) := by decide +kernel
-
-/-- witness 2 (`fs_provider::read_file`): FILE is a directory -/
-theorem witness_directory :
-    (run envOk 1 (argvOf "adir") [("adir", .dir)]).outcome = .crash (siteOf .inputIsDirectory) := by decide +kernel
-
-/-- witness 3 (`parse_type_encoding`): `<type name="K" primitiveType="char" presence="constant"/>` -/
-def constCharDoc : Xml :=
-  .doc [.schema schemaNode [goodTypes, .types {} [
-    { kind := .type, depth := 1, attrs := [("name", "K"), ("primitiveType", "char"), ("presence", "constant")] }]]]
-theorem witness_const_char :
-    (run envOk 1 (argvOf "s.xml") [("s.xml", .file constCharDoc)]).outcome = .crash (siteOf .constCharNoValue) := by
-  decide +kernel
-
-/-- the same access for a *valid* schema: a `char` constant given by `valueRef` -/
-def constCharValueRefDoc : Xml :=
-  .doc [.schema schemaNode [goodTypes, .types {} [
-    { kind := .type, depth := 1,
-      attrs := [("name", "K"), ("primitiveType", "char"), ("presence", "constant"), ("valueRef", "E.A")] }]]]
-theorem witness_const_char_value_ref :
-    (run envOk 1 (argvOf "s.xml") [("s.xml", .file constCharValueRefDoc)]).outcome = .crash (siteOf .constCharNoValue) := by
-  decide +kernel
-
-/-- witness 4 (`parse_include`): a document whose top level includes itself -/
-def selfIncl : Xml := .doc [.incl { attrs := [("href", "self.xml")] }]
-def cycFs : FS :=
-  [("s.xml", .file (.doc [.schema schemaNode [.incl { attrs := [("href", "self.xml")] }, goodTypes]])),
-   ("self.xml", .file selfIncl)]
-theorem witness_include_cycle :
-    (run envOk 50 (argvOf "s.xml") cycFs).outcome = .crash (siteOf .includeCycle) := by decide +kernel
-
-/-- witness 5: element nesting deeper than the stack survives -/
+/-- witness (still open): element nesting deeper than the stack survives -/
 def deepDoc : Xml :=
   .doc [.schema schemaNode [.types {} [{ kind := .composite, attrs := [("name", "c")], depth := 1001 }]]]
 theorem witness_depth :
     (run envOk 1 (argvOf "s.xml") [("s.xml", .file deepDoc)]).outcome = .crash (siteOf .nestingTooDeep) := by
   decide +kernel
 
-/-- witness 6 (`location_manager::find`): a parse error reported at an offset
-    behind the file content (truncated / transcoded input) -/
-theorem witness_offset :
-    (run envOk 1 (argvOf "s.xml") [("s.xml", .file (.malformed "Error parsing start element tag" false))]).outcome
-      = .crash (siteOf .offsetBeyondContent) := by decide +kernel
-
 theorem run_no_crash_false : ¬ run_no_crash := by
   intro h
-  have := h envOk 1 ["sbeppc", "-{}"] [] envOk_sound
-  rw [witness_brace_arg] at this
+  have := h envOk 1 (argvOf "s.xml") [("s.xml", .file deepDoc)] envOk_sound (by decide)
+  rw [witness_depth] at this
   simp [Outcome.isCrash] at this
 
 /-- a well-formed run, for contrast (non-vacuity of everything below) -/
 theorem good_run :
-    run envOk 1 (argvOf "s.xml") [("s.xml", .file goodDoc)] =
-      ⟨.ok ["out/s/types/T.hpp", "out/s/schema/schema.hpp", "out/s/s.hpp"],
-       ["out/s/types/T.hpp", "out/s/schema/schema.hpp", "out/s/s.hpp"]⟩ := by decide +kernel
+    run envOk 1 (argvOf "s.xml") [("s.xml", .file goodDoc)] = ⟨.ok threeFiles, threeFiles⟩ := by decide +kernel
 
-/-! ## what is proved: crashes only at the unguarded sites; none without their triggers -/
+/-! ## the former witnesses are handled now (each was a crash before its `fix:` commit) -/
 
-/-- the diagnostic text that reaches `reporter.error(e.what())`, if any -/
-def diagText (env : Env) (fuel : Nat) (argv : List String) (fs : FS) : Option String :=
-  match front env fuel argv fs with
-  | .error (.p (.diag m)) => some m
-  | .error _ => none
-  | .ok none => none
-  | .ok (some (cfg, p)) => (emit env cfg p).1
+/-- `sbeppc -{}`: the text with braces is printed as it is -/
+theorem brace_arg_is_diagnosed :
+    run envOk 1 ["sbeppc", "-{}"] [] = ⟨.diag "unknown argument: `-{}`", []⟩ := by decide +kernel
 
-/-- **crash_only_at_unguarded**: if the guard table's claims about the guarded
-    sites hold, every crash of the model happens at a site the table marks
-    `unguarded`. -/
-theorem crash_only_at_unguarded (env : Env) (fuel : Nat) (argv : List String) (fs : FS) (hs : Sound env)
-    (s : SiteKey) (h : (run env fuel argv fs).outcome = .crash s) : ∃ t, guardOf s = some (.unguarded t) := by
-  have key : ∀ m, reportDiag m = .crash s → ∃ t, guardOf s = some (.unguarded t) := by
-    intro m hm
-    unfold reportDiag at hm
-    split at hm
-    · cases hm
-    · cases hm; exact ⟨_, trigger_sites_unguarded _⟩
-  unfold run at h
-  split at h
-  · rename_i e he
-    cases e with
-    | p ps =>
-      cases ps with
-      | diag m => exact key m h
-      | crash t => simp only [report] at h; cases h; exact ⟨_, trigger_sites_unguarded _⟩
-      | fuel => simp only [report] at h; cases h; exact ⟨_, trigger_sites_unguarded _⟩
-    | guarded g => exact absurd he (sound_no_guarded hs)
-  · cases h
-  · split at h
-    · cases h
-    · exact key _ h
+/-- a missing file whose name contains braces -/
+theorem brace_path_is_diagnosed :
+    run envOk 1 (argvOf "no{such}.xml") [] = ⟨.diag "can't open file: `no{such}.xml`", []⟩ := by decide +kernel
 
-/-- the triggers excluded on the input side: no directory is read, parse errors
-    and node offsets lie inside the file, nesting stays below the stack limit,
-    no constant `char` type lacks both content and `length`, the include graph is
-    acyclic (decreases `rank`) and the fuel exceeds it, and the diagnostic text —
-    if there is one — has no unescaped brace -/
-structure NoTrigger (env : Env) (fuel : Nat) (argv : List String) (fs : FS) (rank : String → Nat) : Prop where
-  fsok : FsOk IsDiag env fs
-  acyclic : Acyclic fs rank
-  fuelOk : ∀ p, rank p ≤ fuel
-  brace : ∀ m, diagText env fuel argv fs = some m → fmtSafe m = true
+/-- every diagnostic text reaches the user unchanged -/
+theorem diagnostic_text_is_data (m : String) : report (.p (.diag m)) = .diag m := rfl
 
-/-- **run_no_crash_partial**: the model never crashes on an input that has none
-    of the six triggers. -/
-theorem run_no_crash_partial (env : Env) (fuel : Nat) (argv : List String) (fs : FS) (rank : String → Nat)
-    (hs : Sound env) (hn : NoTrigger env fuel argv fs rank) : (run env fuel argv fs).outcome.isCrash = false := by
-  have hb := hn.brace
-  unfold diagText at hb
-  unfold run
-  split
-  · rename_i e he
-    rw [he] at hb
-    cases e with
-    | p ps =>
-      cases ps with
-      | diag m =>
-        have := hb m rfl
-        simp [report, reportDiag, this, Outcome.isCrash]
-      | crash t =>
-        rcases front_error_p he with ⟨m, hm⟩ | ⟨cfg, _, hp⟩
-        · cases hm
-        · exact absurd (errs_parseMain diagOk_isDiag hn.fsok hn.acyclic fuel cfg.file (hn.fuelOk _) _ hp) (by simp [IsDiag])
-      | fuel =>
-        rcases front_error_p he with ⟨m, hm⟩ | ⟨cfg, _, hp⟩
-        · cases hm
-        · exact absurd (errs_parseMain diagOk_isDiag hn.fsok hn.acyclic fuel cfg.file (hn.fuelOk _) _ hp) (by simp [IsDiag])
-    | guarded g => exact absurd he (sound_no_guarded hs)
-  · rfl
-  · rename_i cfg p hf
-    rw [hf] at hb
-    split
-    · rfl
-    · rename_i m w hm
-      have := hb m (by simp [hm])
-      simp [reportDiag, this, Outcome.isCrash]
+/-- FILE is a directory -/
+theorem directory_is_diagnosed :
+    run envOk 1 (argvOf "adir") [("adir", .dir)] = ⟨.diag "can't read file: `adir` is a directory", []⟩ := by
+  decide +kernel
 
-/-- non-vacuity: the well-formed run satisfies every hypothesis -/
-example : NoTrigger envOk 1 (argvOf "s.xml") [("s.xml", .file goodDoc)] (fun _ => 0) :=
-  have h := fsOk_of_entries envOk [("s.xml", .file goodDoc)] (fun _ => 0) (by decide +kernel)
-  { fsok := h.1, acyclic := h.2, fuelOk := fun _ => by omega,
-    brace := by
-      intro m hm
-      have : diagText envOk 1 (argvOf "s.xml") [("s.xml", .file goodDoc)] = none := by decide +kernel
-      rw [this] at hm; cases hm }
+/-- an included directory -/
+theorem included_directory_is_diagnosed :
+    (run envOk 2 (argvOf "s.xml")
+      [("s.xml", .file (.doc [.schema schemaNode [.incl { attrs := [("href", "adir")] }]])), ("adir", .dir)]).outcome
+      = .diag "can't read file: `adir` is a directory" := by decide +kernel
 
-/-! ## termination: fuel bound from the include graph; a cycle exhausts every fuel -/
+/-- `<type name="K" primitiveType="char" presence="constant"/>` reaches the
+    validator (which rejects it: neither value nor valueRef — `env.validate`) -/
+def constCharDoc : Xml :=
+  .doc [.schema schemaNode [goodTypes, .types {} [
+    { kind := .type, depth := 1, attrs := [("name", "K"), ("primitiveType", "char"), ("presence", "constant")] }]]]
+theorem const_char_is_parsed :
+    (run envOk 1 (argvOf "s.xml") [("s.xml", .file constCharDoc)]).outcome = .ok threeFiles ∧
+    (run { envOk with validate := fun _ _ => some "either `valueRef` or value must be provided" } 1 (argvOf "s.xml")
+      [("s.xml", .file constCharDoc)]).outcome = .diag "either `valueRef` or value must be provided" := by
+  decide +kernel
 
-/-- **run_terminates**: for an acyclic include graph (one that decreases some
-    `rank`) any fuel at least the largest rank suffices — the model never runs
-    out of fuel, i.e. the nesting of `schema_parser` instances is bounded. -/
-theorem run_terminates (env : Env) (fuel : Nat) (argv : List String) (fs : FS) (rank : String → Nat)
-    (hac : Acyclic fs rank) (hf : ∀ p, rank p ≤ fuel) : front env fuel argv fs ≠ .error (.p .fuel) := by
+/-- a document whose top level includes itself: the second visit is refused -/
+def cycFs : FS :=
+  [("s.xml", .file (.doc [.schema schemaNode [.incl { attrs := [("href", "self.xml")] }, goodTypes]])),
+   ("self.xml", .file (.doc [.incl { attrs := [("href", "self.xml")] }]))]
+theorem include_cycle_is_diagnosed :
+    run envOk 2 (argvOf "s.xml") cycFs = ⟨.diag "self.xml:L:C: cyclic include of `self.xml`", []⟩ := by decide +kernel
+
+/-- including the main file again is a cycle, too -/
+theorem include_of_main_is_diagnosed :
+    (run envOk 1 (argvOf "s.xml")
+      [("s.xml", .file (.doc [.schema schemaNode [.incl { attrs := [("href", "s.xml")] }]]))]).outcome
+      = .diag "s.xml:L:C: cyclic include of `s.xml`" := by decide +kernel
+
+/-! ## what is proved: crashes only at the unguarded sites; none without the trigger -/
+
+/-- **run_terminates**: the include stack bounds the nesting of
+    `schema_parser` instances by the number of files — for *every* file system
+    (cyclic include graphs included) fuel `fs.length` is never exhausted. -/
+theorem run_terminates (env : Env) (fuel : Nat) (argv : List String) (fs : FS) (hf : fs.length ≤ fuel) :
+    front env fuel argv fs ≠ .error (.p .fuel) := by
   intro h
   rcases front_error_p h with ⟨m, hm⟩ | ⟨cfg, _, hp⟩
   · cases hm
-  · exact errs_parseMain diagOk_notFuel (fsOk_notFuel env fs) hac fuel cfg.file (hf _) _ hp
+  · exact errs_parseMain diagOk_notFuel (fsOk_notFuel env fs) fuel cfg.file hf _ hp
 
 /-- **run_fuel_stable**: beyond that bound more fuel changes nothing — the
-    result is that of the unbounded recursion. -/
-theorem run_fuel_stable (env : Env) (f1 f2 : Nat) (argv : List String) (fs : FS) (rank : String → Nat)
-    (hac : Acyclic fs rank) (h1 : ∀ p, rank p ≤ f1) (h2 : ∀ p, rank p ≤ f2) :
-    run env f1 argv fs = run env f2 argv fs := by
+    result is that of the C++ recursion, which has no fuel. -/
+theorem run_fuel_stable (env : Env) (f1 f2 : Nat) (argv : List String) (fs : FS)
+    (h1 : fs.length ≤ f1) (h2 : fs.length ≤ f2) : run env f1 argv fs = run env f2 argv fs := by
   have : front env f1 argv fs = front env f2 argv fs := by
     unfold front
     split
     · rfl
     · rfl
     · rename_i cfg _
-      rw [parseMain_fuel_stable hac f1 f2 cfg.file (h1 _) (h2 _)]
+      rw [parseMain_fuel_stable f1 f2 cfg.file h1 h2]
   unfold run
   rw [this]
 
-/-- non-vacuity: an include graph main → a → b with its rank -/
+/-- non-vacuity: an include chain main → a → b needs (and gets by with) fuel 2 < 3 = fs.length -/
 def chainFs : FS :=
   [("s.xml", .file (.doc [.schema schemaNode [.incl { attrs := [("href", "a.xml")] }]])),
    ("a.xml", .file (.doc [.incl { attrs := [("href", "b.xml")] }])),
    ("b.xml", .file (.doc [goodTypes]))]
-def chainRank (p : String) : Nat := if p = "s.xml" then 2 else if p = "a.xml" then 1 else 0
-example : Acyclic chainFs chainRank ∧ (∀ p, chainRank p ≤ 2) :=
-  ⟨(fsOk_of_entries envOk chainFs chainRank (by decide +kernel)).2, fun p => by unfold chainRank; split <;> (try split) <;> omega⟩
-example : (run envOk 2 (argvOf "s.xml") chainFs).outcome
-    = .ok ["out/s/types/T.hpp", "out/s/schema/schema.hpp", "out/s/s.hpp"] := by decide +kernel
-/-- with less fuel than the chain is long the bound is really needed -/
+example : (run envOk 3 (argvOf "s.xml") chainFs).outcome = .ok threeFiles := by decide +kernel
 example : front envOk 1 (argvOf "s.xml") chainFs = .error (.p .fuel) := by rfl
 
-theorem selfIncl_any_fuel : ∀ (fuel : Nat) (path : String) (acc : Parsed),
-    parseIncl envOk cycFs path fuel { attrs := [("href", "self.xml")] } acc = .error .fuel
-  | 0, path, acc => by
-    unfold parseIncl
-    have : requiredNonEmpty path { attrs := [("href", "self.xml")] } "href" = .ok "self.xml" := by rfl
-    rw [this]; rfl
-  | fuel + 1, path, acc => by
-    unfold parseIncl
-    have h1 : requiredNonEmpty path { attrs := [("href", "self.xml")] } "href" = .ok "self.xml" := by rfl
-    have h2 : loadDoc cycFs "self.xml" = .ok [.incl { attrs := [("href", "self.xml")] }] := by rfl
-    rw [h1]
-    simp only [bind, Except.bind, h2]
-    unfold parseItemsWith
-    simp only [bind, Except.bind, selfIncl_any_fuel fuel "self.xml" acc]
+/-- **crash_only_at_unguarded**: if the guard table's claims about the guarded
+    sites hold, every crash of the model happens at a site the table marks
+    `unguarded`. -/
+theorem crash_only_at_unguarded (env : Env) (fuel : Nat) (argv : List String) (fs : FS) (hs : Sound env)
+    (hf : fs.length ≤ fuel) (s : SiteKey) (h : (run env fuel argv fs).outcome = .crash s) :
+    ∃ t, guardOf s = some (.unguarded t) := by
+  rcases run_cases env fuel argv fs with ⟨e, he, hr⟩ | hr | ⟨cfg, p, _, ⟨d, hr⟩ | hr | ⟨f, w, _, hr⟩⟩
+  · rw [hr] at h
+    cases e with
+    | p ps =>
+      cases ps with
+      | diag m => cases h
+      | crash t => simp only [report] at h; cases h; exact ⟨_, trigger_sites_unguarded _⟩
+      | fuel => exact absurd he (run_terminates env fuel argv fs hf)
+    | guarded g => exact absurd he (sound_no_guarded hs)
+  · rw [hr] at h; cases h
+  · rw [hr] at h; cases h
+  · rw [hr] at h; cases h
+  · rw [hr] at h; cases h
 
-/-- **include_cycle_exhausts_any_fuel**: for the self-including document no
-    fuel suffices: the recursion `parse_include → schema_parser →
-    parse_schema_content → parse_include` is unbounded in the C++ (which has no
-    fuel): stack exhaustion. -/
-theorem include_cycle_exhausts_any_fuel (fuel : Nat) :
-    front envOk fuel (argvOf "s.xml") cycFs = .error (.p .fuel) := by
-  have hp : parseMain envOk cycFs fuel "s.xml" = .error .fuel := by
-    unfold parseMain
-    have h1 : loadDoc cycFs "s.xml"
-        = .ok [.schema schemaNode [.incl { attrs := [("href", "self.xml")] }, goodTypes]] := by rfl
-    have h2 : findSchema "s.xml" [.schema schemaNode [.incl { attrs := [("href", "self.xml")] }, goodTypes]]
-        = .ok (schemaNode, [.incl { attrs := [("href", "self.xml")] }, goodTypes]) := by rfl
-    have h3 : parseSchemaAttrs "s.xml" schemaNode = .ok () := by rfl
-    simp only [bind, Except.bind, h1, h2, h3]
-    unfold parseItemsWith
-    simp only [bind, Except.bind, selfIncl_any_fuel fuel "s.xml" _]
-  have hc : parseCommandLine (argvOf "s.xml") = .go { file := "s.xml", outputDir := "out" } := by decide +kernel
-  unfold front
-  rw [hc]
-  simp only [hp]
+/-- the trigger excluded on the input side: in every document the element
+    nesting stays below what the stack survives -/
+def DepthOk (env : Env) (fs : FS) : Prop := FsOk IsDiag env fs
+
+/-- **run_no_crash_partial**: the model never crashes on an input whose
+    nesting depth the stack survives — whatever else the command line, the
+    files (missing, directories, malformed, cyclic includes, any attribute
+    text) and the abstract stages do. -/
+theorem run_no_crash_partial (env : Env) (fuel : Nat) (argv : List String) (fs : FS)
+    (hs : Sound env) (hf : fs.length ≤ fuel) (hd : DepthOk env fs) :
+    (run env fuel argv fs).outcome.isCrash = false := by
+  rcases run_cases env fuel argv fs with ⟨e, he, hr⟩ | hr | ⟨cfg, p, _, ⟨d, hr⟩ | hr | ⟨f, w, _, hr⟩⟩
+  · rw [hr]
+    cases e with
+    | p ps =>
+      cases ps with
+      | diag m => rfl
+      | crash t =>
+        rcases front_error_p he with ⟨m, hm⟩ | ⟨cfg, _, hp⟩
+        · cases hm
+        · exact absurd (errs_parseMain diagOk_isDiag hd fuel cfg.file hf _ hp) (by simp [IsDiag])
+      | fuel => exact absurd he (run_terminates env fuel argv fs hf)
+    | guarded g => exact absurd he (sound_no_guarded hs)
+  all_goals (rw [hr]; rfl)
+
+/-- non-vacuity: the well-formed run, the cyclic one and the directory satisfy the hypothesis -/
+example : DepthOk envOk [("s.xml", .file goodDoc)] ∧ DepthOk envOk cycFs ∧ DepthOk envOk [("adir", .dir)] :=
+  ⟨fsOk_of_entries _ _ (by decide +kernel), fsOk_of_entries _ _ (by decide +kernel),
+   fsOk_of_entries _ _ (by decide +kernel)⟩
 
 /-! ## a rejected schema leaves no generated files -/
 
@@ -325,18 +268,19 @@ theorem rejected_leaves_no_files_false : ¬ rejected_leaves_no_files := by
     emission — every diagnostic of the parser, the validators and the names
     generator, and a failing `create_directories`, is raised before the first
     `write_file`.  The only diagnostic that can follow a write is `write_file`'s
-    own "can't open file" for a later output file. -/
+    own failure for a later output file. -/
 theorem rejected_leaves_no_files_partial (env : Env) (fuel : Nat) (argv : List String) (fs : FS) (m : String)
     (h : (run env fuel argv fs).outcome = .diag m) :
     (run env fuel argv fs).written = [] ∨ ∃ f, env.openFails f = true ∧ m = "can't open file: `" ++ f ++ "`" := by
-  rcases run_cases env fuel argv fs with ⟨e, hr⟩ | hr | ⟨cfg, p, _, ⟨d, hr⟩ | hr | ⟨f, w, hf, hr⟩⟩
+  rcases run_cases env fuel argv fs with ⟨e, _, hr⟩ | hr | ⟨cfg, p, _, ⟨d, hr⟩ | hr | ⟨f, w, hf, hr⟩⟩
   · left; rw [hr]
   · left; rw [hr]
   · left; rw [hr]
   · rw [hr] at h; cases h
   · right
     rw [hr] at h
-    exact ⟨f, hf, (reportDiag_diag h).symm⟩
+    cases h
+    exact ⟨f, hf, rfl⟩
 
 /-- if the operating system never refuses an output file, a diagnostic leaves no file -/
 theorem rejected_leaves_no_files_if_open_succeeds (env : Env) (fuel : Nat) (argv : List String) (fs : FS) (m : String)
@@ -352,27 +296,15 @@ theorem ok_writes_all_files (env : Env) (fuel : Nat) (argv : List String) (fs : 
     (h : (run env fuel argv fs).outcome = .ok files) :
     (run env fuel argv fs).written = files ∧
       (files = [] ∨ ∃ cfg p, front env fuel argv fs = .ok (some (cfg, p)) ∧ files = env.files cfg p) := by
-  rcases run_cases env fuel argv fs with ⟨e, hr⟩ | hr | ⟨cfg, p, hfr, ⟨d, hr⟩ | hr | ⟨f, w, hf, hr⟩⟩
+  rcases run_cases env fuel argv fs with ⟨e, _, hr⟩ | hr | ⟨cfg, p, hfr, ⟨d, hr⟩ | hr | ⟨f, w, hf, hr⟩⟩
   · rw [hr] at h
     exfalso
     cases e with
-    | p ps =>
-      cases ps with
-      | diag m => exact reportDiag_not_ok h
-      | crash t => cases h
-      | fuel => cases h
+    | p ps => cases ps <;> cases h
     | guarded g => cases h
   · rw [hr] at h ⊢; cases h; exact ⟨rfl, Or.inl rfl⟩
-  · rw [hr] at h; exact absurd h reportDiag_not_ok
+  · rw [hr] at h; cases h
   · rw [hr] at h ⊢; cases h; exact ⟨rfl, Or.inr ⟨cfg, p, hfr, rfl⟩⟩
-  · rw [hr] at h; exact absurd h reportDiag_not_ok
-
-/-! ## {fmt}: which diagnostics are safe -/
-
-/-- a diagnostic assembled from brace-free pieces is a safe format string -/
-theorem fmtSafe_of_no_brace (s : String) (h : braceFree s) : fmtSafe s = true := fmtSafe_of_braceFree s h
-
-example : fmtSafe "missing filename" = true ∧ fmtSafe "x.xml:1:1: `a{b` is not a valid SBE name" = false ∧
-    fmtSafe "doubled {{ and }} pass (and print single braces)" = true := by decide
+  · rw [hr] at h; cases h
 
 end Sbepp.Properties.C09
